@@ -109,6 +109,11 @@ type localCfg struct {
 	blockSize          int
 	old, current, newB int
 	records            int
+	// hierarchical: local.NewHierarchicalCASBlobAccess instead of the flat one
+	// (configuration: hierarchical_instance_names). The store then tells
+	// instance names apart: an object uploaded under instance name I is
+	// visible under I and under every name that has I as a prefix.
+	hierarchical bool
 }
 
 // localStore is one assembled replica.
@@ -143,7 +148,11 @@ func newLocalStore(cfg localCfg, hashInit uint64) *localStore {
 	caps := capabilities.NewStaticProvider(&remoteexecution.ServerCapabilities{
 		CacheCapabilities: &remoteexecution.CacheCapabilities{DigestFunctions: digest.SupportedDigestFunctions},
 	})
-	s.ba = local.NewFlatBlobAccess(s.klm, s.lbm, digest.KeyWithoutInstance, s.lock, "c11", caps)
+	if cfg.hierarchical {
+		s.ba = local.NewHierarchicalCASBlobAccess(s.klm, s.lbm, s.lock, caps)
+	} else {
+		s.ba = local.NewFlatBlobAccess(s.klm, s.lbm, digest.KeyWithoutInstance, s.lock, "c11", caps)
+	}
 	return s
 }
 
@@ -152,14 +161,29 @@ func newLocalStore(cfg localCfg, hashInit uint64) *localStore {
 func (s *localStore) age(d digest.Digest) int {
 	s.lock.RLock()
 	defer s.lock.RUnlock()
-	loc, err := s.klm.Get(local.NewKeyFromString(d.GetKey(digest.KeyWithoutInstance)))
-	if err != nil {
-		return 0
+	// The keys the store itself looks up, in its own order: the flat store has
+	// one key; the hierarchical store tries the instance name and all of its
+	// prefixes, shortest first, and takes the first hit
+	// (hierarchical_cas_blob_access.go getAllLookupKeys /
+	// getLeastSpecificLookupEntry).
+	keys := []string{d.GetKey(digest.KeyWithoutInstance)}
+	if s.cfg.hierarchical {
+		keys = nil
+		for _, pd := range d.GetDigestsWithParentInstanceNames() {
+			keys = append(keys, pd.GetKey(digest.KeyWithInstance))
+		}
 	}
-	if _, needsRefresh := s.lbm.Get(loc); needsRefresh {
-		return 2
+	for _, k := range keys {
+		loc, err := s.klm.Get(local.NewKeyFromString(k))
+		if err != nil {
+			continue
+		}
+		if _, needsRefresh := s.lbm.Get(loc); needsRefresh {
+			return 2
+		}
+		return 1
 	}
-	return 1
+	return 0
 }
 
 func (s *localStore) put(d digest.Digest, data []byte) error {
